@@ -40,7 +40,7 @@ def cases(tier, seed):
     from fv.props.c03 import with_sensors
     ops = [with_sensors(d) for d in space.family_ops("thorough" if tier == "thorough" else "quick") if len(d["state"]) == 2]
     cse = [with_sensors(d) for d in space.family_cse(tier) if len(d["state"]) == 2]
-    defs.append(space.bind_def(5, 3, 3, order=1, sensors_shape=(3, 1), tag="-wide"))  # names x10 < x2, u10 < u2, K < c
+    defs.append(space.bind_def(5, 4, 3, order=1, sensors_shape=(3, 1), tag="-wide"))  # names x10 < x2, u10 < u2, K < c
     if tier == "quick":
         defs = defs + ops[::3] + cse[::3]
     else:
